@@ -26,7 +26,7 @@ def _c01() -> SimEngine:
         "close/lock/gate/tick in placements inline/task/call_soon and embedded in workers, callbacks, iterators. Non-trivial: at some "
         "observation point live workers == pool size (finite) while a spawner still had work to do (someone waits for room). "
         "Distinct = canonical JSON hash of the program.",
-        [("default", prof, 0.7), ("embedded-heavy", emb, 0.3)],
+        [("default", prof, 0.6), ("embedded-heavy", emb, 0.25), ("two-pools", dict(prof, max_pools=2), 0.15)],
         lambda case, l: "pool-full-with-spawner-waiting" in l,
         n_quick=4000, n_thorough=200000,
         floors={"pool-full-with-spawner-waiting": 0.3, "idle:pool-full": 0.3})
@@ -50,7 +50,7 @@ def _c02() -> SimEngine:
         "programs weighted towards cancellations close to task creation, exceptions, slow async callbacks and overlapping flush(); plus the "
         "enumerated placement sweep. Non-trivial: a cancellation reached a task before its first step, or a flush overlapped a callback / "
         "saw a state change while suspended, and the end-of-run capacity probe ran. Distinct = program hash.",
-        [("default", prof, 1.0)],
+        [("default", prof, 0.85), ("two-pools", dict(prof, max_pools=2), 0.15)],
         lambda case, l: "probe:done" in l and bool(l & {"cancel:before-first-step", "group-cancel:task-before-first-step",
                                                        "flush:overlaps-callback", "flush:state-changed-meanwhile"}),
         n_quick=4000, n_thorough=200000, sweep=sw,
@@ -65,7 +65,7 @@ def _c03() -> SimEngine:
         "programs with end/cancel callbacks on most requests (sync, async, gated), workers that return, raise, propagate, swallow or clean "
         "up on cancellation, cancelled singly, repeatedly, by group, globally, by stop. Non-trivial: the run contains a cancel callback and "
         "an end callback, at least one of them async. Distinct = program hash.",
-        [("default", prof, 1.0)],
+        [("default", prof, 0.85), ("two-pools", dict(prof, max_pools=2), 0.15)],
         lambda case, l: bool(l & {"cb:c:async", "cb:c:sync"}) and bool(l & {"cb:e:async", "cb:e:sync"}) and bool(l & {"cb:c:async", "cb:e:async"}),
         n_quick=4000, n_thorough=200000, floors={"cb:c:async": 0.1, "cb:e:async": 0.2})
 
@@ -143,7 +143,7 @@ def _c07() -> SimEngine:
         "1..n sibling groups of all request kinds; cancel_group / cancel_all / unknown names at arbitrary ticks, issued by the driver, "
         "actors, workers and callbacks of the same or another group; plus the enumerated sweep. Non-trivial: the cancelled group's "
         "spawner still had work left and a sibling had work pending. Distinct = program hash.",
-        [("default", prof, 1.0)],
+        [("default", prof, 0.85), ("two-pools", dict(prof, max_pools=2), 0.15)],
         lambda case, l: "group-cancel:spawner-had-work-left" in l and "group-cancel:sibling-had-work-pending" in l,
         n_quick=4000, n_thorough=200000, sweep=sw,
         floors={"group-cancel:spawner-had-work-left": 0.3, "group-cancel:before-spawner-ran": 0.05})
